@@ -5,7 +5,7 @@
 set -u
 export GOFLAGS=-mod=mod GOPROXY=off GOSUMDB=off GOTOOLCHAIN=local
 id=$1; name=${2:-$id}
-src=/tmp/seed-out/$id
+src=${SEED_OUT:-/tmp/seed-out}/$id
 wt=/tmp/seedverify-$id-$$
 git -C /repo worktree add -q --detach $wt HEAD || exit 2
 cleanup() { git -C /repo worktree remove --force $wt; }
@@ -26,13 +26,14 @@ PY
 )
 for f in $(find $src/demo -type f \( -name "*.go" -o -name "*.sqlite" -o -name "*.json" -o -name "*.sh" \)); do
   # placement: same relative dir as in the seed worktree
-  rel=$(cd /tmp/seed-$id 2>/dev/null && git status --porcelain | awk '{print $2}' | grep "$(basename $f)\$" | head -1)
+  rel=$(cd ${SEED_WT:-/tmp/seed}-$id 2>/dev/null && git status --porcelain | awk '{print $2}' | grep "$(basename $f)\$" | head -1)
   [ -z "$rel" ] && rel=$(python3 -c "
 import json,re,glob
 s=open('$src/meta.json').read()
 for t in glob.glob('$src/demo/*.txt')+glob.glob('$src/*.txt')+glob.glob('$src/*.md'): s+=open(t).read()
 b='$(basename $f)'
 mm=re.search(r'(?:->|placed at|place at|to)\s*\`?([\w/.-]*/'+re.escape(b)+')', s)
+if not mm: mm=re.search(re.escape(b)+r'[^\n]{0,40}?(?:->|place at|placed at|goes to|to)\s*\`?([\w/.-]+/[\w.-]+_test\.go)', s)
 print(mm.group(1) if mm else '')")
   [ -z "$rel" ] && { echo "FAIL: cannot place demo $f"; exit 1; }
   mkdir -p $(dirname $rel); cp $f $rel; echo "demo placed: $rel"
